@@ -40,6 +40,40 @@ pub fn iv_text(iv: &Iv) -> String {
     }
 }
 
+/// the same interval with build metadata written on every bound version (`>=1.0.0-a+linux`):
+/// the parser keeps it on the stored bound, and it must never matter
+pub fn iv_text_build(iv: &Iv, build: &str) -> String {
+    let with = |e: &End| -> End {
+        match e {
+            End::Unb => End::Unb,
+            End::Inc(v) => End::Inc(v.clone().with_build_s(build)),
+            End::Exc(v) => End::Exc(v.clone().with_build_s(build)),
+        }
+    };
+    iv_text(&Iv { lo: with(&iv.lo), hi: with(&iv.hi) })
+}
+
+/// ordered pairs of table operands over the short chain whose bounds carry (different, equal,
+/// one-sided) build metadata
+pub fn build_metadata_pairs() -> Vec<(Operand, Operand)> {
+    let t = table_intervals(&short_chain());
+    let mut out = vec![];
+    for (i, a) in t.iter().enumerate() {
+        for (j, b) in t.iter().enumerate() {
+            let (ba, bb) = match (i + 2 * j) % 4 {
+                0 => ("linux", "darwin"),
+                1 => ("b.7", ""),
+                2 => ("", "b.7"),
+                _ => ("x", "x"),
+            };
+            if let (Some(x), Some(y)) = (operand_from_text(&iv_text_build(a, ba)), operand_from_text(&iv_text_build(b, bb))) {
+                out.push((x, y));
+            }
+        }
+    }
+    out
+}
+
 /// the version chain of the bound-kind table: a prerelease, its successor, the release,
 /// the release's successor, the next patch, a far version.
 pub fn chain() -> Vec<MV> {
